@@ -52,6 +52,7 @@ UNTYPED_OK = {
     "myst_parser.warnings_:create_warning": "the typed emission itself (docutils branch: message already carries [type.subtype]; Sphinx branch passes type=/subtype=)",
     "myst_parser.mdit_to_docutils.base:DocutilsRenderer.create_highlighted_code_block": "pygments LexerError text, mirrors docutils' own code directive (not a MyST catalogue warning)",
     "myst_parser.parsers.docutils_:Parser.parse": "'Raw content disabled.' mirrors docutils' raw-role message",
+    "myst_parser.parsers.sphinx_:MystParser.parse": "'Raw content disabled.' - the same raw filter as the docutils front end (mirrors docutils' raw-role message)",
     "myst_parser.sphinx_ext.mathjax:log_override_warning": "MathJax override notice: hand-checked against suppress_warnings with the fixed tag myst.mathjax",
     "myst_parser._docs:DirectiveDoc.run": "documentation build helper, not reachable from setup()",
 }
